@@ -18,7 +18,8 @@ RULE = ("heartbeat streams of 1-40 heartbeats with strictly increasing timestamp
         "(zero and positive durations, repeated/alternating data, gaps below/at/above the pulsetime, zero-length "
         "heartbeats whose end ties with the previous event's end) × pulsetimes {0, fractional, large}, fed through "
         "get(limit=1) -> heartbeat_merge -> replace_last | insert on each backend, in a store that also holds 1-2 "
-        "other buckets (created before and after) whose events end at the stream's own instants; in a quarter of the cases the "
+        "other buckets (created before and after) whose events start and end at the stream's own instants, some of them "
+        "written while the stream is being fed; in a quarter of the cases the "
         "bucket is deleted and re-created mid-stream and the stream carries on; after EVERY "
         "heartbeat the bucket is compared with heartbeat_reduce(prefix) (real transform and integer reference) and "
         "the other buckets with their initial dump; evaluations = heartbeats; non-trivial = stream has a merge and a "
@@ -72,14 +73,24 @@ def gen_case(rng, ctx):
             nxt = end_prev + pu + rng.randrange(1, 5) * unit
         ts = max(ts + 1000, floor_ms(nxt))
     ends = [s["ts"] + s["dur"] for s in stream]
+    starts = [s["ts"] for s in stream]
     others = []
     for j in range(rng.choice([1, 1, 2])):
-        evs = []
-        for k in range(rng.randrange(0, 4)):
+        def other_event(k):
+            if rng.random() < 0.5:
+                # starts at exactly the instant of a heartbeat (and may end where one ends)
+                s0 = rng.choice(starts)
+                later = [x for x in ends if x >= s0]
+                e0 = rng.choice(later) if later and rng.random() < 0.6 else s0 + rng.choice([0, 1000, unit])
+                return dict(ts=s0, dur=e0 - s0, data={"other": j, "k": k})
             e = rng.choice(ends)
             s = e - rng.choice([0, 1000, unit, 3 * unit])
-            evs.append(dict(ts=floor_ms(max(0, s)), dur=e - floor_ms(max(0, s)), data={"other": j, "k": k}))
-        others.append(dict(when=rng.choice(["before", "after"]), evs=evs))
+            return dict(ts=floor_ms(max(0, s)), dur=e - floor_ms(max(0, s)), data={"other": j, "k": k})
+        evs = [other_event(k) for k in range(rng.randrange(0, 4))]
+        # events written to the other bucket WHILE the stream is being fed (they get higher row ids than the
+        # heartbeat bucket's events that exist by then)
+        late = [dict(after=rng.randrange(0, n), ev=other_event(100 + k)) for k in range(rng.randrange(0, 4))]
+        others.append(dict(when=rng.choice(["before", "after"]), evs=evs, late=late))
     # the watcher's bucket may be deleted and re-created mid-stream (the watcher simply carries on)
     recreate_at = rng.randrange(1, n) if n > 1 and rng.random() < 0.25 else None
     return dict(backend=backend, stream=stream, pulse_us=pu, others=others, recreate_at=recreate_at)
@@ -146,9 +157,15 @@ def run_case(case, ctx):
             if others != others0:
                 viols.append((f"{backend}:other-bucket-changed", f"after heartbeat #{k}: before={others0!r:.300} after={others!r:.300}"))
                 break
+            for j, o in enumerate(case["others"]):
+                for lt in o.get("late", []):
+                    if lt["after"] == k:
+                        ds[f"other-{j}"].insert(mk_event(lt["ev"]))
+                        others0 = dump_store(ds, skip={"hb"})      # the other bucket legitimately grew
+                        ctx.count("late_other_bucket_inserts")
     ends = [t[0] + t[1] for t in tuples]
     end_tie = any(a == b_ for a, b_ in zip(ends, ends[1:]))
-    co = any(o["evs"] for o in case["others"])
+    co = any(o["evs"] or o.get("late") for o in case["others"])
     cls = ("m" in decisions, "i" in decisions[1:], "mi" in decisions, "im" in decisions[1:])
     sig = (backend, cls, end_tie, tuple(sorted({o["when"] for o in case["others"]})), 0 if pu == 0 else (1 if pu < 10**7 else 2),
            case.get("recreate_at") is not None)
